@@ -103,6 +103,11 @@ def build_c(mod, proof, ix):
             raise ExtractionError("record %s not found" % rn)
         em.need_struct(rec)
     for r in proof.roots:
+        if isinstance(r, dict):     # slice: {"func": (q, np, sig), "from": var, "to": var, "cname": name}
+            f = r["func"]
+            qn, d = ix.find_function(f[0], f[1], f[2] if len(f) > 2 else None)
+            root_cnames.append(em.need_slice(d, r["from"], r["to"], r["cname"]))
+            continue
         if isinstance(r, str):
             r = (r, None)
         q, np = r[0], r[1]
